@@ -7,6 +7,7 @@ import (
 	"time"
 	"unicode/utf8"
 
+	"github.com/emersion/go-sasl"
 	"github.com/emersion/go-smtp"
 	"pgregory.net/rapid"
 
@@ -35,6 +36,20 @@ type c14Case struct {
 	ORcpt       string   `json:"orcpt"`
 	RRVS        int64    `json:"rrvs"` // unix seconds, 0 = unset
 	RRVSOffset  int      `json:"rrvs_offset"`
+	// The rest of the server's configuration has no bearing on the envelope:
+	// a recipient limit, a size limit (above every declared SIZE is not
+	// possible, so it is only set when no SIZE is declared or SIZE fits), the
+	// other optional extensions, LMTP.
+	RcptMax    int   `json:"rcpt_max,omitempty"`
+	SizeLimit  int64 `json:"size_limit,omitempty"`
+	BinaryMIME bool  `json:"binarymime,omitempty"`
+	LMTP       bool  `json:"lmtp,omitempty"`
+	// Prelude: what happens on the connection before the judged MAIL/RCPT:
+	// "" nothing, "auth" a successful AUTH PLAIN, "txn" a complete earlier
+	// transaction, "auth+txn"; with Reset the client calls Reset after it
+	// (which renegotiates the capabilities).
+	Prelude string `json:"prelude,omitempty"`
+	Reset   bool   `json:"reset,omitempty"`
 }
 
 func printable(s string) bool {
@@ -64,11 +79,13 @@ func textDomain(s string) bool {
 }
 
 func c14Run(c c14Case) Verdict {
-	cfg := harness.Config{UTF8: c.ServerUTF8, DSN: true, RRVS: true, RequireTLS: true, AllowInsecureAuth: true}
+	cfg := harness.Config{UTF8: c.ServerUTF8, DSN: true, RRVS: true, RequireTLS: true, AllowInsecureAuth: true,
+		MaxRecipients: c.RcptMax, MaxMessageBytes: c.SizeLimit, BinaryMIME: c.BinaryMIME, LMTP: c.LMTP}
 	if c.TLS {
 		cfg.TLS = "implicit"
 	}
-	r := harness.NewRig(cfg, harness.Script{AuthSession: true, Mechs: []string{"PLAIN"}})
+	r := harness.NewRig(cfg, harness.Script{AuthSession: true, Mechs: []string{"PLAIN"}, LMTPSession: c.LMTP,
+		SASL: []harness.SASLScript{{SkipChallengesWithIR: true}}})
 	var mo *smtp.MailOptions
 	if c.HasMailOpts {
 		mo = &smtp.MailOptions{Size: c.Size, RequireTLS: c.RequireTLS, UTF8: c.UTF8, Return: smtp.DSNReturn(c.Return), EnvelopeID: c.EnvID}
@@ -90,10 +107,31 @@ func c14Run(c c14Case) Verdict {
 		}
 	}
 	var mailErr, rcptErr error
-	ok := withClient(r, false, func(cl *smtp.Client, w *harness.Wire) {
+	var preErr error
+	preMails, preRcpts := 0, 0
+	ok := withClient(r, c.LMTP, func(cl *smtp.Client, w *harness.Wire) {
 		if err := cl.Hello("cli"); err != nil {
 			mailErr = fmt.Errorf("hello: %w", err)
 			return
+		}
+		if strings.Contains(c.Prelude, "auth") {
+			if err := cl.Auth(sasl.NewPlainClient("", "u", "pw")); err != nil {
+				preErr = fmt.Errorf("prelude AUTH: %w", err)
+				return
+			}
+		}
+		if strings.Contains(c.Prelude, "txn") {
+			preMails, preRcpts = 1, 1
+			if err := cl.SendMail("p@x", []string{"q@x"}, strings.NewReader("earlier message\r\n")); err != nil {
+				preErr = fmt.Errorf("prelude transaction: %w", err)
+				return
+			}
+		}
+		if c.Reset {
+			if err := cl.Reset(); err != nil {
+				preErr = fmt.Errorf("prelude Reset: %w", err)
+				return
+			}
 		}
 		mailErr = cl.Mail(c.From, mo)
 		if mailErr != nil {
@@ -107,9 +145,22 @@ func c14Run(c c14Case) Verdict {
 	if p := r.Log.Panicked(); p != "" {
 		return failf("panic", "server logged a panic: %s", p)
 	}
+	if preErr != nil {
+		return Verdict{Inconclusive: preErr.Error()}
+	}
 	evs := r.B.Events()
 	mails, rcpts := eventsOf(evs, "Mail", true), eventsOf(evs, "Rcpt", true)
+	if len(mails) < preMails || len(rcpts) < preRcpts {
+		return Verdict{Inconclusive: "the prelude transaction did not reach the backend"}
+	}
+	mails, rcpts = mails[preMails:], rcpts[preRcpts:]
 	v := Verdict{}
+	if c.Prelude != "" || c.Reset {
+		v.Classes = append(v.Classes, "after_prelude")
+	}
+	if c.RcptMax > 0 || c.SizeLimit > 0 || c.BinaryMIME || c.LMTP {
+		v.Classes = append(v.Classes, "other_server_settings")
+	}
 	needsEnc := func(s string) bool { return strings.ContainsAny(s, "+= \\{}\x7f") || !printable(s) }
 	v.NonTrivial = needsEnc(c.EnvID) || needsEnc(c.ORcpt) || (c.Auth != nil && (needsEnc(*c.Auth) || *c.Auth == ""))
 	if v.NonTrivial {
@@ -275,6 +326,18 @@ func c14Gen(t *rapid.T) c14Case {
 			c.From = "üser@bücher.example"
 		}
 	}
+	if rapid.Bool().Draw(t, "other_settings") {
+		c.RcptMax = rapid.SampledFrom([]int{0, 1, 5}).Draw(t, "rcpt_max")
+		c.BinaryMIME = rapid.Bool().Draw(t, "binarymime")
+		c.LMTP = rapid.IntRange(0, 3).Draw(t, "lmtp") == 0
+		if c.Size <= 1024 && rapid.Bool().Draw(t, "size_limit") {
+			c.SizeLimit = rapid.SampledFrom([]int64{1024, 1 << 20}).Draw(t, "limit")
+		}
+	}
+	if rapid.IntRange(0, 2).Draw(t, "prelude") == 0 {
+		c.Prelude = rapid.SampledFrom([]string{"", "auth", "txn", "auth+txn"}).Draw(t, "prelude_kind")
+		c.Reset = rapid.Bool().Draw(t, "reset")
+	}
 	c.HasRcptOpts = rapid.IntRange(0, 9).Draw(t, "ro") != 0
 	if c.HasRcptOpts {
 		c.Notify = rapid.SampledFrom(c14NotifySets).Draw(t, "notify")
@@ -329,7 +392,7 @@ func init() {
 
 func TestC14(t *testing.T) {
 	registerAll()
-	st.Rule = "cases = (envelope, every MailOptions/RcptOptions field, server with/without SMTPUTF8, implicit TLS for REQUIRETLS) sent by the go-smtp client to a go-smtp server; string coverage: every ASCII octet and boundary/sampled (quick) or all (thorough) Unicode scalars individually in ENVID, rfc822-ORCPT, utf-8-ORCPT and AUTH, and all words up to the length bound over the encoding-significant alphabet; oracle = field-by-field equality (refusal allowed only outside the guaranteed text domain); non-trivial = a value containing a character that needs encoding; distinct = hash of the whole case"
+	st.Rule = "cases = (envelope, every MailOptions/RcptOptions field, server with/without SMTPUTF8, implicit TLS for REQUIRETLS, unrelated server settings (recipient limit, size limit, BINARYMIME, LMTP), optional prelude on the connection: AUTH, an earlier transaction, Client.Reset) sent by the go-smtp client to a go-smtp server; string coverage: every ASCII octet and boundary/sampled (quick) or all (thorough) Unicode scalars individually in ENVID, rfc822-ORCPT, utf-8-ORCPT and AUTH, and all words up to the length bound over the encoding-significant alphabet; oracle = field-by-field equality (refusal allowed only outside the guaranteed text domain); non-trivial = a value containing a character that needs encoding; distinct = hash of the whole case"
 	if !regress(t, "C14") {
 		return
 	}
